@@ -308,6 +308,14 @@ def build():
                                                 Levenshtein().distance_bins.tolist() if hasattr(Levenshtein(), "distance_bins") else None])
     add("next_nearest_neighbors/3", "pure", lambda: dict(x="AB"), lambda a: prs.next_nearest_neighbors(a["x"], lambda y: prs.hamming_neighbors(y, alphabet="AB"), maxdistance=3))
     add("pc_joint/gap_token", "pure", lambda: dict(df=_dfg(), d2=_dfg().iloc[::-1]), lambda a: prs.pc_joint(a["df"], ["CDR3B", "v"], a["d2"], gap_token="|"))
+    # ---- float64 arrays handed over by the caller: np.asarray(x, dtype=float) does not copy them, so in-place arithmetic inside a
+    #      function would write into the caller's array
+    add("pc_conditional/weights_f64", "pure", lambda: dict(df=_dfg(), w=np.array([0.5, 2.0])), lambda a: prs.pc_conditional(a["df"], "g", "CDR3B", group_weights=a["w"]))
+    add("varpc_n/f64", "pure", lambda: dict(c=np.array([4.0, 2.0, 2.0, 1.0])), lambda a: [prs.varpc_n(a["c"]), prs.stdpc_n(a["c"]), prs.pc_n(a["c"])])
+    add("chao/f64", "pure", lambda: dict(c=np.array([4.0, 2.0, 1.0])), lambda a: [prs.chao1(a["c"]), prs.var_chao1(a["c"]), prs.chao2(a["c"], 3), prs.var_chao2(a["c"], 3)])
+    add("subsample/f64_counts", "random", lambda: dict(c=np.array([3, 0, 2, 5])), lambda a: prs.subsample(a["c"], 4))
+    add("powerlaw_mle_alpha/f64", "pure", lambda: dict(c=np.array([1.0, 2.0, 2.0, 5.0, 9.0])), lambda a: [prs.powerlaw_mle_alpha(a["c"], method="simple"), prs.powerlaw_mle_alpha(a["c"], cmin=2.0, method="continuitycorrection")])
+    add("pcDelta/ndarray_bins", "pure", lambda: dict(s=np.array(SEQS, dtype=object), b=np.array([0.0, 1.0, 2.0, 5.0])), lambda a: prs.pcDelta(a["s"], bins=a["b"], pseudocount=0.5))
     # ---- sentinels: values that exist only under the default IEEE / NumPy error handling (inf, nan); a call that leaves the
     #      process-wide floating-point error state or similar settings changed shows here
     add("sentinel/renyi2_all_distinct", "pure", lambda: dict(df=pd.DataFrame(dict(CDR3B=["CASSF", "CASSY", "CAWF"]))), lambda a: prs.renyi2_entropy(a["df"], "CDR3B"))
